@@ -210,6 +210,12 @@ def final_sizes(ctx):
             infs = nodes[:ctx.rng.randint(1, 4)]
             if kind == "random+recs":
                 recs = nodes[4:4 + ctx.rng.randint(1, 4)]
+            if ctx.rng.random() < 0.6:
+                # isolated nodes that stay susceptible for ever: they count in N and in S(t) of the dynamic model exactly as in
+                # the final-size relation (a degree-0 class in both)
+                extra = ctx.rng.randint(1, 6)
+                G.add_nodes_from(range(n, n + extra))
+                ctx.count("final-size:isolated susceptible nodes")
         N = G.order()
         tau, gamma = ctx.rng.choice([(0.6, 1.0), (1.0, 1.0), (2.0, 0.5)])
         p = ctx.rng.choice([0.3, 0.5, 0.8])
